@@ -40,6 +40,13 @@ impl CidPrefix {
         }
 
         let version = Version::try_from(raw_version).ok()?;
+
+        // CIDv0 can only be expressed with the naked multihash form above,
+        // explicit version 0 is invalid (and would violate `to_cid` invariants).
+        if version == Version::V0 {
+            return None;
+        }
+
         let (multihash_code, rest) = unsigned_varint::decode::u64(rest).ok()?;
         let (multihash_size, _rest) = unsigned_varint::decode::usize(rest).ok()?;
 
